@@ -3,6 +3,7 @@ package scen
 import (
 	"context"
 	"fmt"
+	"io"
 	"path/filepath"
 	"strconv"
 	"strings"
@@ -14,10 +15,12 @@ import (
 
 	"github.com/blevesearch/bleve/v2"
 	"github.com/blevesearch/bleve/v2/index/scorch"
+	index "github.com/blevesearch/bleve_index_api"
 )
 
 // BackupCfg configures the online-backup scenario (C14).
 type BackupCfg struct {
+	SlowDst   int            `json:"slow_dst,omitempty"` // the destination directory needs this many scheduling steps per file
 	Index     model.IndexCfg `json:"index"`
 	Sched     sched.Config   `json:"sched"`
 	NDocs     int            `json:"ndocs"`
@@ -37,9 +40,10 @@ func genBackup(c *core.Ctx) (BackupCfg, BackupWL) {
 	cfg.Index.Unsafe = g.Intn(2) == 0 // unsafe batches: the copied snapshot often holds unpersisted segments
 	cfg.Sched = genSchedCfg(g, true)
 	if g.Intn(3) == 0 {
-		// starve the copier's competitors less than the copier: purger and merger run while a copy is in flight
-		cfg.Sched = sched.Config{Policy: sched.PolBurst, Burst: 3 + g.Intn(6)}
+		// a slow copier: persister, merger and purger get many rounds while a copy is in flight
+		cfg.Sched = sched.Config{Policy: sched.PolStarve, StarveRole: "backup"}
 	}
+	cfg.SlowDst = []int{0, 0, 5, 40, 150}[g.Intn(5)]
 	wl := BackupWL{}
 	nw := 1 + g.Intn(3)
 	total := 0
@@ -51,13 +55,35 @@ func genBackup(c *core.Ctx) (BackupCfg, BackupWL) {
 		total += n
 		wl.Writers = append(wl.Writers, genWriterBatches(g, w, cfg.NDocs, n))
 	}
-	for i := 0; i < 1+g.Intn(2); i++ {
-		wl.Copies = append(wl.Copies, g.Intn(total*25))
+	nc := 1 + g.Intn(3)
+	first := g.Intn(total * 20)
+	for i := 0; i < nc; i++ {
+		if g.Intn(2) == 0 {
+			// overlapping copies: started within a few steps of each other
+			wl.Copies = append(wl.Copies, first+g.Intn(12))
+		} else {
+			wl.Copies = append(wl.Copies, g.Intn(total*25))
+		}
 	}
 	if g.Intn(2) == 0 {
 		wl.ForceMerges = 1 + g.Intn(2)
 	}
 	return cfg, wl
+}
+
+// slowDirectory is a slow destination (the index.Directory seam CopyTo writes through): every file takes a number
+// of scheduling steps to open, so that persists, merges and purges happen while a copy is under way.
+type slowDirectory struct {
+	index.Directory
+	s     *sched.Sched
+	steps int
+}
+
+func (d *slowDirectory) GetWriter(filePath string) (io.WriteCloser, error) {
+	for i := 0; i < d.steps; i++ {
+		d.s.Yield("slow-destination")
+	}
+	return d.Directory.GetWriter(filePath)
 }
 
 func backupScenario(c *core.Ctx) {
@@ -141,7 +167,7 @@ func backupScenario(c *core.Ctx) {
 			}
 			invStep := s.Steps
 			dst := filepath.Join(c.Dir, name)
-			err := idx.(bleve.IndexCopyable).CopyTo(bleve.FileSystemDirectory(dst))
+			err := idx.(bleve.IndexCopyable).CopyTo(&slowDirectory{Directory: bleve.FileSystemDirectory(dst), s: s, steps: cfg.SlowDst})
 			after := invokedOf(tracks)
 			copies++
 			if err != nil {
